@@ -10,6 +10,7 @@ package main
 
 import (
 	"fmt"
+	"go/token"
 	"go/types"
 	"strings"
 
@@ -492,5 +493,136 @@ func init() {
 	register(&Rule{
 		ID: inst.id, Template: "T5-strong (a failure aborts)", Doc: inst.doc, Min: inst.min,
 		Run: func(p *Program, r *RuleResult) error { return runAbortInstance(p, r, inst) },
+	})
+}
+
+func init() {
+	register(&Rule{
+		ID: "C01-i", Template: "T5-strong (the sorter's error channel is consulted before success)",
+		Doc: "A merge pass that failed fails the ingest: a production function that creates an error channel and hands it to (*Sorter).SortedBlocks / SortedRows returns success only after it received from that channel and found it empty (closed, or a nil error) — on every path. The sorter's goroutine reports a read error of a spill file by sending on the channel and closing its output; the consumer of the output sees a normal end of input. If the channel is looked at only when something else failed too, a cut-short table is stored and its identifier returned with a nil error.",
+		Min: 1,
+		Run: func(p *Program, r *RuleResult) error {
+			sorted, err := p.MustFuncs("pkg/sorter.(*Sorter).SortedBlocks", "pkg/sorter.(*Sorter).SortedRows")
+			if err != nil {
+				return err
+			}
+			fns := p.ProdFuncs()
+			r.Analysed = len(fns)
+			for _, fn := range fns {
+				for _, c := range callsTo(fn, sorted) {
+					args := c.Common().Args
+					var ch ssa.Value
+					for _, a := range args {
+						if _, ok := a.Type().Underlying().(*types.Chan); ok {
+							for x := range backward(a, nil) {
+								if mc, ok := x.(*ssa.MakeChan); ok {
+									ch = mc
+								}
+							}
+						}
+					}
+					if ch == nil {
+						continue // the channel belongs to the caller: its owner carries the obligation
+					}
+					same := forward([]ssa.Value{ch}, fwdOpts{noBinOp: true})
+					var recvs []ssa.Instruction
+					noErr := cutSet{}
+					for _, b := range fn.Blocks {
+						for _, in := range b.Instrs {
+							u, ok := in.(*ssa.UnOp)
+							if !ok || u.Op != token.ARROW || !same[u.X] {
+								continue
+							}
+							recvs = append(recvs, u)
+							if u.CommaOk {
+								var oks []ssa.Value
+								errv := map[ssa.Value]bool{}
+								for _, ref := range *u.Referrers() {
+									if ex, ok := ref.(*ssa.Extract); ok {
+										if ex.Index == 1 {
+											oks = append(oks, ex)
+										} else {
+											errv[ex] = true
+										}
+									}
+								}
+								for _, e := range boolEdges(fn, forward(oks, fwdOpts{noBinOp: true}), false) {
+									noErr[e] = true
+								}
+								for _, bb := range fn.Blocks {
+									if len(bb.Instrs) == 0 {
+										continue
+									}
+									if ifi, ok := bb.Instrs[len(bb.Instrs)-1].(*ssa.If); ok {
+										if s, ok := nilTestEdge(ifi, errv); ok {
+											noErr[edge{bb, s}] = true
+										}
+									}
+								}
+							} else {
+								for _, bb := range fn.Blocks {
+									if len(bb.Instrs) == 0 {
+										continue
+									}
+									if ifi, ok := bb.Instrs[len(bb.Instrs)-1].(*ssa.If); ok {
+										if s, ok := nilTestEdge(ifi, map[ssa.Value]bool{u: true}); ok {
+											noErr[edge{bb, s}] = true
+										}
+									}
+								}
+							}
+						}
+					}
+					key := callKey(fn, c) + "|error-channel"
+					what := "success is reported only after the sorter's error channel was found empty"
+					ei := errorResultIndex(fn.Signature)
+					bad := ""
+					block := map[ssa.Instruction]bool{}
+					for _, rv := range recvs {
+						block[rv] = true
+					}
+					// what was received (the sorter's error) handed on to the caller is a failure return
+					var rvs []ssa.Value
+					for _, rv := range recvs {
+						u := rv.(*ssa.UnOp)
+						if u.CommaOk {
+							for _, ref := range *u.Referrers() {
+								if ex, ok := ref.(*ssa.Extract); ok && ex.Index == 0 {
+									rvs = append(rvs, ex)
+								}
+							}
+						} else {
+							rvs = append(rvs, u)
+						}
+					}
+					received := forward(rvs, fwdOpts{noBinOp: true, throughCalls: true})
+					for _, ret := range returnsOf(fn) {
+						if ei >= 0 {
+							if v := retVal(ret, ei); v != nil && (definitelyNonNilError(v) || nonNilByGuard(fn, ret, v) || received[v]) {
+								continue
+							}
+						}
+						if path, reach := reachAfter(fn, c, ret, nil, block); reach {
+							bad = fmtPath("a successful return is reachable after the sort was started without receiving from its error channel", path)
+							break
+						}
+						for _, rv := range recvs {
+							if path, reach := reachAfter(fn, rv, ret, noErr, nil); reach {
+								bad = fmtPath("a successful return is reachable from the receive without the 'no error' outcome", path)
+							}
+						}
+					}
+					if len(recvs) == 0 && ei >= 0 {
+						bad = "the error channel handed to the sorter is never received from"
+					}
+					if bad != "" {
+						r.bad(key, p.Rel(c.Pos()), what, bad)
+					} else {
+						r.ok(key, p.Rel(c.Pos()), what)
+					}
+				}
+			}
+			return nil
+		},
 	})
 }
